@@ -129,9 +129,13 @@ pub fn model(events: &[E], server_under_test: bool) -> (Expect, Option<usize>) {
                             rest.extend_from_slice(&events[i + 1..]);
                             return match model(&rest, server_under_test) {
                                 (Expect::Continue, _) => (Expect::CloseOrContinue(vec![H3_MISSING_SETTINGS]), Some(i)),
-                                (Expect::Close(mut c), _) | (Expect::CloseOrContinue(mut c), _) => {
+                                (Expect::Close(mut c), _) => {
                                     c.push(H3_MISSING_SETTINGS);
                                     (Expect::Close(c), Some(i))
+                                }
+                                (Expect::CloseOrContinue(mut c), _) => {
+                                    c.push(H3_MISSING_SETTINGS);
+                                    (Expect::CloseOrContinue(c), Some(i))
                                 }
                             };
                         }
